@@ -29,10 +29,11 @@ Definition push_key (st : rstate) (s : string) : rstate :=
 Definition push_mapping_key (st : rstate) (key : value) : res rstate :=
   match raw_string key with
   | Ok s => Ok (push_key st s)
-  | Err _ =>
+  | Err e =>
       match key with
       | VStr s => Ok (push_key st s)
       | VList _ => Err EKeyValueList
+      | VMap _ | VSeq _ => Err e
       | _ => Panic PPushKey
       end
   | Panic p => Panic p
